@@ -20,8 +20,8 @@ import (
 )
 
 var justifiedUTF8 = map[string]string{
-	"analysis/sql.isTableID|name[2:]":             "guarded by HasPrefix(strings.ToLower(name), \"id\"): the two letters removed lower-case to ASCII i and d; assumption stated: they are the ASCII letters themselves (U+0130 and U+212A, which also lower-case to ASCII, are not used in type names)",
-	"analysis/sql.isTableID|name[:len(name) - 2]": "guarded by HasSuffix(strings.ToLower(name), \"id\"): same argument as for the prefix form",
+	"analysis/sql.isTableID|$string[2:]":                "guarded by HasPrefix(strings.ToLower(name), \"id\"): the two letters removed lower-case to ASCII i and d; assumption stated: they are the ASCII letters themselves (U+0130 and U+212A, which also lower-case to ASCII, are not used in type names)",
+	"analysis/sql.isTableID|$string[:len($string) - 2]": "guarded by HasSuffix(strings.ToLower(name), \"id\"): same argument as for the prefix form",
 }
 
 func utf8SliceRule(w *World, r *Result, only func(rel string) bool) int {
@@ -104,7 +104,7 @@ func utf8SliceRule(w *World, r *Result, only func(rel string) bool) int {
 				r.ok("UTF8-SLICE", fi.Name, cons, pos, strings.Join(why, "; "), true)
 				return true
 			}
-			if j, ok := justifiedUTF8[fi.Name+"|"+cons]; ok {
+			if j, ok := justifiedUTF8[fi.Name+"|"+normLocals(info, se)]; ok {
 				r.justified("UTF8-SLICE", fi.Name, cons, pos, j)
 				return true
 			}
